@@ -1117,6 +1117,22 @@ func c14activeStalled(rep *vh.Report, seed uint64, idx int, asClient bool) {
 		rep.Inconclusive(fmt.Sprintf("C14 active-stalled: the harness's own send gap reached %v (>= T/2), activity verdict not taken", gap))
 	default:
 		rep.Count("active_stalled_channels_kept_open", 1)
+		// the peer has gone silent now (and still does not read): while the node's writes keep running into their timeout,
+		// the idle timeout must still end the channel
+		silentSince := time.Now()
+		limit := T + 4*wt + 2*time.Second
+		for time.Since(silentSince) < limit && life.count(false) == 0 {
+			for k := 0; k < 50; k++ {
+				_ = node.WriteFrameTo(ch, &frame.V2Frame{SystemID: 9, ComponentID: 1, Checksum: sp.Checksum, Message: &message.MessageRaw{ID: 5000, Payload: big}})
+			}
+			time.Sleep(time.Millisecond)
+		}
+		if life.count(false) == 0 {
+			rep.Violation("ep=tcp what=no-idle-close", fmt.Sprintf("a peer that has sent nothing for %v (idle timeout %v) while the node's writes to it time out (write timeout %v) still has its channel", time.Since(silentSince).Round(10*time.Millisecond), T, wt),
+				map[string]interface{}{"as_client": asClient, "writes_held_up": heldUp})
+		} else {
+			rep.Count("silent_stalled_channels_closed_by_idle_expiry", 1)
+		}
 	}
 	if !safeClose(rep, node) {
 		return
